@@ -97,6 +97,7 @@ type Instance struct {
 }
 
 type Model struct {
+	Defined map[int]bool // terms that were part of the query the model answers
 	Vals map[*Term]uint64
 	memo map[*Term]uint64
 	u    *Univ
@@ -132,6 +133,7 @@ type InstResult struct {
 	AssumeTxt   []string
 	X           *Exec
 	FreeVars    int
+	ModelBad    string
 }
 
 // Execute runs the harness symbolically (no solving).
@@ -240,6 +242,7 @@ func Discharge(x *Exec, inst Instance, so SolveOpts) *InstResult {
 	base = append(base, x.Assumes...)
 	base = append(base, x.parFinished...)
 	with := func(t *Term) []*Term { return append(append([]*Term(nil), base...), t) }
+	baseNF := append([]*Term(nil), x.Assumes...)
 	// vacuity: assumptions satisfiable
 	res, note := s.Query(base)
 	count(res)
@@ -259,12 +262,40 @@ func Discharge(x *Exec, inst Instance, so SolveOpts) *InstResult {
 				if m, err := getModel(x, s); err == nil {
 					r.ReachModel = m
 					r.ReachLabel = w.Label
+					// self-check: the extracted model must satisfy what was asserted
+					for i, b := range base {
+						if m.Eval(b) != 1 {
+							r.ModelBad = fmt.Sprintf("extracted model falsifies assumption #%d (%s)", i, b.Show(4))
+							break
+						}
+					}
 				}
 			}
 		}
 	}
-	asserts := x.Obligs
-	r.NOblig = len(asserts)
+	var asserts, nofin []Oblig
+	for _, o := range x.Obligs {
+		if o.NoFinish {
+			nofin = append(nofin, o)
+		} else {
+			asserts = append(asserts, o)
+		}
+	}
+	r.NOblig = len(x.Obligs)
+	for _, o := range nofin {
+		res, _ := s.Query(append(append([]*Term(nil), baseNF...), o.Cond))
+		count(res)
+		switch res {
+		case Sat:
+			if m, err := getModel(x, s); err == nil {
+				r.Violations = append(r.Violations, Violation{o, m})
+			} else {
+				r.Unknowns = append(r.Unknowns, o)
+			}
+		case Unknown:
+			r.Unknowns = append(r.Unknowns, o)
+		}
+	}
 	// obligations are discharged in groups (one query per group: the
 	// disjunction of the group's violation conditions must be unsat); a group
 	// that is not unsat is split into its members
@@ -368,5 +399,9 @@ func getModel(x *Exec, s *Solver) (*Model, error) {
 	if err != nil {
 		return nil, err
 	}
-	return &Model{Vals: vals, memo: map[*Term]uint64{}, u: x.U}, nil
+	def := map[int]bool{}
+	for id := range s.defined {
+		def[id] = true
+	}
+	return &Model{Vals: vals, memo: map[*Term]uint64{}, u: x.U, Defined: def}, nil
 }
